@@ -175,6 +175,16 @@ fn decode(tape: &[u8]) -> Scenario {
             Req::MissingName { fields } => fields.iter().map(|(k, v)| format!("{}={}", encode(&mut t, k), encode(&mut t, v))).collect::<Vec<_>>().join("&"),
             Req::FromSession { .. } => String::new(),
         };
+        // empty pairs are not fields: '&' at the start, at the end or doubled
+        let body = if !body.is_empty() && !matches!(req, Req::MissingName { .. }) && t.chance(15) {
+            match t.below(3) {
+                0 => format!("{}&", body),
+                1 => format!("&{}", body),
+                _ => body.replacen('&', "&&", 1),
+            }
+        } else {
+            body
+        };
         reqs.push((req, body));
     }
     Scenario { reqs, posters: 1 + t.below(8), ecma_receiver }
@@ -228,7 +238,7 @@ impl Check for C20 {
         "C20"
     }
     fn rule(&self) -> String {
-        "per case 1-10 requests against a fresh receiver session (ECMAScript 70 % / rfsm-expression) on an executor with the BasicHTTP processor (127.0.0.1:5555), issued by 1-8 concurrent posters released by a barrier: valid POSTs with 1-3 extra fields / only _content / only the event name; POSTs to an unknown session id, without _scxmleventname, with a non-numeric session path; and events sent by a second session with <send type='basichttp' | the full URI> to the location the receiver reads from _ioprocessors (a string and an integer parameter). Event names, field names and values are drawn from an alphabet with space & = + % # ? / é 日 newline quotes < ; ~ and dots/brackets in names; bodies are written by the harness' own percent-encoder with generated spelling choices ('+' or %20, upper/lower hex, needlessly encoded letters); requests go over a raw TCP socket. \
+        "per case 1-10 requests against a fresh receiver session (ECMAScript 70 % / rfsm-expression) on an executor with the BasicHTTP processor (127.0.0.1:5555), issued by 1-8 concurrent posters released by a barrier: valid POSTs with 1-3 extra fields / only _content / only the event name; POSTs to an unknown session id, without _scxmleventname, with a non-numeric session path; and events sent by a second session with <send type='basichttp' | the full URI> to the location the receiver reads from _ioprocessors (a string and an integer parameter). Event names, field names and values are drawn from an alphabet with space & = + % # ? / é 日 newline quotes < ; ~ and dots/brackets in names; bodies are written by the harness' own percent-encoder with generated spelling choices ('+' or %20, upper/lower hex, needlessly encoded letters, empty pairs '&&' / leading / trailing '&'); requests go over a raw TCP socket. \
          Oracle: valid POST -> status 2xx and exactly one event with that name processed before the sentinel, whose _event.data holds exactly the other fields (ECMAScript: sorted key/value list as JSON; rfsm-expression: fixed keys k1..k3) or the _content value, or nothing; invalid request -> status >= 400 and no event; session send -> exactly one event with that name and the textual form of both parameters; the valid POSTs of one poster (which waits for each response) are processed in the order they were posted. \
          Non-trivial = a name, field name or value needed percent-encoding, or >= 2 concurrent posters; distinct = hash of the request list."
             .into()
